@@ -155,6 +155,9 @@ _SNIPPETS = [
     'async def co(): pass\nclass A:\n    async def m(self): pass\n    @classmethod\n    @property\n    def cp(cls): return 1\n',
     'x = 1\n"""doc of x"""\nclass V:\n    y: int\n    """doc of y"""\n',
     'def broken(:\n',
+    'def outer():\n    async def inner():\n        x = 1\n    return inner\n',
+    'class AM:\n    def m(self):\n        async def inner():\n            class Deep: pass\n        with open("f") as f:\n            async def inner2(): pass\n',
+    'async def aouter():\n    def inner(): pass\n    async def ainner(): pass\n    if True:\n        async def cond(): pass\n',
     'class W:\n    if True:\n        def a(self): pass\n    else:\n        def b(self): pass\n    for i in range(3):\n        def c(self): pass\n',
 ]
 
@@ -186,7 +189,7 @@ def _check_stack(case):
         src = '\n'.join(_SNIPPETS[i] for i in case['snippets'] if 'broken' not in _SNIPPETS[i])
         mods = [('stk', src, False)]
         if any('broken' in _SNIPPETS[i] for i in case['snippets']):
-            mods.append(('stkbad', _SNIPPETS[11], False))
+            mods.append(('stkbad', 'def broken(:\n', False))
         try:
             fixtures.build_system(mods)
         except BaseException as ex:  # noqa
@@ -202,4 +205,4 @@ def _check_stack(case):
 
 HARNESS[f'{A}:ASTBuilder.push'] = {'cases': _stack_cases, 'check': _check_stack,
     'covers': [f'{A}:ASTBuilder.pop', 'lemma.push_pop_inverse'],
-    'bound': '13 module snippets (nested classes/functions, properties, overloads, __main__ blocks, duplicates, syntax error) alone and in 40 (400) random combinations'}
+    'bound': '16 module snippets (nested classes/functions, properties, overloads, __main__ blocks, duplicates, syntax error) alone and in 40 (400) random combinations'}
